@@ -883,7 +883,8 @@ func (s *AbsfsNFS) ReadDirPlus(dir *NFSNode) ([]*NFSNode, error) {
 	// Pre-cache attributes for all entries
 	for _, node := range nodes {
 		if attrs, found := s.attrCache.Get(node.path, s); !found || attrs == nil || !attrs.IsValid() {
-			info, err := s.fs.Stat(node.path)
+			// Lstat, as LOOKUP and GETATTR use: a symbolic link is reported as a link
+			info, err := s.fs.Lstat(node.path)
 			if err != nil {
 				continue
 			}
